@@ -25,7 +25,10 @@ import (
 const rule = "the C07 event generator plus widths W in -5..200 (0,1,2,3 over-weighted), file names from empty to 300 bytes, all levels, timestamps over years 1..9999 in zones -14h..+14h; non-trivial = a nested container or reflected value directly after a scalar/empty container at top level, or len(file:line) > W; distinct by rendered event description"
 
 var levels = []log.Level{log.NoneLevel, log.TraceLevel, log.DebugLevel, log.InfoLevel, log.WarnLevel, log.ErrorLevel, log.PanicLevel, log.FatalLevel, log.MaxLevel,
-	log.RegisterLevel(1, "lowest"), log.RegisterLevel(350, "Notice"), log.RegisterLevel(450, "alert"), log.RegisterLevel(998, "TOP")}
+	log.RegisterLevel(1, "lowest"), log.RegisterLevel(350, "Notice"), log.RegisterLevel(450, "alert"), log.RegisterLevel(998, "TOP"),
+	// distinct levels that share a code (an alias next to a built-in level, a second custom level at
+	// the same severity, the zero Level next to NONE): the label is the event's name, not the code's
+	log.RegisterLevel(400, "WARNING"), log.RegisterLevel(300, "Information"), log.RegisterLevel(450, "alarm"), {}}
 
 func known(sig string) bool {
 	for _, k := range strings.Split(os.Getenv("VERIF_KNOWN"), ",") {
